@@ -472,6 +472,19 @@ fn translate_block(
                 | capstone::mips_insn::MIPS_INS_JAL
                 | capstone::mips_insn::MIPS_INS_JALR
                 | capstone::mips_insn::MIPS_INS_JR => {
+                    // A branch in the delay slot of another branch is
+                    // UNPREDICTABLE; lifting both would give the block the
+                    // successors of two branches.
+                    if matches!(
+                        branch_delay,
+                        TranslateBranchDelay::DelaySlot(..)
+                            | TranslateBranchDelay::DelaySlotFallThrough(..)
+                    ) {
+                        return Err(Error::Custom(format!(
+                            "Branch in the delay slot of a branch at 0x{:x}",
+                            instruction.address
+                        )));
+                    }
                     if bytes.len() == DEFAULT_TRANSLATION_BLOCK_BYTES && offset + 8 >= bytes.len() {
                         successors.push((address + offset as u64, None));
                         break;
